@@ -326,7 +326,14 @@ func ilBody(sc ilScenario) explore.Body {
 		mkRevision(w, 1, base, "r1")
 		mkRevision(w, 2, base, "r1", "r2")
 		for _, n := range sc.Warm {
-			w.Reconcile(world.CtrlObjectSet, osw.NN(n), nil)
+			switch {
+			case strings.HasPrefix(n, "archive:"):
+				osw.SetLifecycle(w, strings.TrimPrefix(n, "archive:"), "Archived")
+			case strings.HasPrefix(n, "delete:"):
+				_ = w.S.Delete(osw.OSKey(strings.TrimPrefix(n, "delete:")), kmodel.DeleteOpts{})
+			default:
+				w.Reconcile(world.CtrlObjectSet, osw.NN(n), nil)
+			}
 		}
 		before := w.S.Clone()
 		passes := map[string]*world.Pass{}
@@ -355,7 +362,12 @@ func ilBody(sc ilScenario) explore.Body {
 			}
 			k := osw.OSKey(n)
 			self := world.IdentOf(k, before.Objs[k].Content)
-			for _, f := range judgeRequests(p, self, func() int64 { return osw.StatusRevision(w.S.Objs[k].Content) }) {
+			for _, f := range judgeRequests(p, self, func() int64 {
+				if o := w.S.Objs[k]; o != nil {
+					return osw.StatusRevision(o.Content)
+				}
+				return osw.StatusRevision(before.Objs[k].Content) // the revision is gone after its teardown
+			}) {
 				viol = append(viol, f.Message)
 				ctx.Log = append(ctx.Log, p.Trace()...)
 			}
@@ -385,6 +397,11 @@ func ilScenarios(quick bool) []ilScenario {
 		{Warm: []string{"r1", "r2", "r3", "r1", "r2"}, A: "r1", B: "r3", Bound: 2},
 		{Warm: []string{"r1", "r2", "r3", "r1", "r2", "r3"}, A: "r2", B: "r3", Bound: 2},
 		{Warm: []string{"r1", "r2", "r3", "r1", "r2"}, A: "r1", B: "r2", CP: "None", Bound: 2},
+		// an old revision, demoted to plain owner, is archived / deleted and releases its objects
+		// while a newer revision adopts them
+		{Warm: []string{"r1", "r2", "archive:r1"}, A: "r1", B: "r3", Bound: 2},
+		{Warm: []string{"r1", "r2", "delete:r1"}, A: "r1", B: "r3", Bound: 2},
+		{Warm: []string{"r1", "archive:r1"}, A: "r1", B: "r2", Bound: 2},
 	}
 	if !quick {
 		for i := range out {
@@ -397,7 +414,7 @@ func ilScenarios(quick bool) []ilScenario {
 
 func runIL(o checks.Opts) *report.Report {
 	rep := report.New("C02", "interleavings")
-	rep.Rule = "two revisions' reconcile passes of the chain r1<-r2<-r3 run as threads with a scheduling point before every API request, after an atomic warm-up sequence; every interleaving with <= `preemptions` preemptions; same per-request monitor and state invariant; distinct = final controller per object"
+	rep.Rule = "two revisions' reconcile passes of the chain r1<-r2<-r3 run as threads with a scheduling point before every API request, after an atomic warm-up sequence (which may archive or delete the oldest revision, so that its teardown releases objects while a newer revision adopts them); every interleaving with <= `preemptions` preemptions; same per-request monitor and state invariant; distinct = final controller per object"
 	scs := ilScenarios(o.Quick())
 	rep.Bounds["scenarios"] = len(scs)
 	for i, sc := range scs {
@@ -459,7 +476,7 @@ func init() {
 				}
 				return 8
 			}, Run: run, Replay: replay, Parallel: true},
-			{Name: "interleavings", Shards: func(string) int { return 6 }, Run: runIL, Replay: replayIL},
+			{Name: "interleavings", Shards: func(string) int { return 8 }, Run: runIL, Replay: replayIL},
 		},
 	})
 }
